@@ -44,7 +44,8 @@ def global_state():
             return repr(sorted((repr(k), repr(x)) for k, x in v.items()))
         return repr(v)
     for modname, mod in list(sys.modules.items()):
-        if mod is None or not (modname == 'geophires_x' or modname.startswith('geophires_x.') or modname.startswith('hip_ra_x')):
+        if mod is None or not (modname == 'geophires_x' or modname.startswith('geophires_x.') or modname.startswith('hip_ra_x')
+                               or modname == 'geophires_x_client' or modname.startswith('geophires_x_client.')):
             continue
         for name, v in list(vars(mod).items()):
             if name.startswith('__'):
@@ -63,6 +64,11 @@ def global_state():
                         if not k.startswith('__') and isinstance(x, (list, dict, set)) and plain(x):
                             out[f'{q}.{k}'] = show(x)
     return out
+
+
+def _result_sha(res):
+    d = {k: v for k, v in (getattr(res, 'result', None) or {}).items() if k not in ('metadata', 'Simulation Metadata')}
+    return hashlib.sha1(json.dumps(d, sort_keys=True, default=str).encode()).hexdigest()
 
 
 def main():
@@ -96,6 +102,7 @@ def main():
     clients = {}
     inputs = {}             # (client, rid) -> GeophiresInputParameters (re-used so the cache key repeats)
     hist = []
+    returned = []
     state0 = None
     for step, op in enumerate(spec['ops']):
         kind = op['op']
@@ -137,6 +144,10 @@ def main():
                     res = clients[op['client']].get_geophires_result(ip)
                 rec['outcome'] = 'ok'
                 rec['report'] = _norm(res._lines)
+                # the parsed result as handed back (metadata = version / date stamps excluded); the object is kept so that it
+                # can be looked at again when the history is over: what a client returned must not change afterwards
+                rec['result_sha'] = _result_sha(res)
+                returned.append((rec, res))
             except BaseException as ex:  # noqa
                 if isinstance(ex, KeyboardInterrupt):
                     raise
@@ -162,6 +173,8 @@ def main():
             with contextlib.suppress(OSError):
                 os.chdir(cwd0)
             sys.argv = argv_obj0
+    for rec, res in returned:
+        rec['result_sha_at_end'] = _result_sha(res)
     with open(out_path, 'w', encoding='utf-8') as f:
         json.dump({'history': hist, 'hashseed': os.environ.get('PYTHONHASHSEED')}, f)
     os.chdir('/')
